@@ -268,9 +268,16 @@ def _dfs_parts(f: FuncInfo) -> dict:
         raise AnalysisError("gen_dfs: expected one top-level while loop")
     lp = loops[0]
     grow = None
+
+    def stores_edge(block):
+        return any(isinstance(s, ast.Assign) and isinstance(s.targets[0], ast.Subscript) and X.U(s.targets[0].value) == "connection_list" for s in block)
     for n in lp.body:
-        if isinstance(n, ast.If) and any(isinstance(s, ast.Assign) and isinstance(s.targets[0], ast.Subscript) and X.U(s.targets[0].value) == "connection_list" for s in n.body):
+        if isinstance(n, ast.If) and stores_edge(n.body):
             grow = n
+        elif isinstance(n, ast.If) and stores_edge(n.orelse):
+            # the growing branch is the `else` arm: view it as `if not <test>: grow else: <body>` (branch orientation is not a property of the code)
+            grow = ast.copy_location(ast.If(test=ast.UnaryOp(op=ast.Not(), operand=n.test), body=n.orelse, orelse=n.body), n)
+            ast.fix_missing_locations(grow)
     if grow is None:
         raise AnalysisError("gen_dfs: no branch that stores an edge at the top level of the loop body")
     return {"loop": lp, "grow": grow}
